@@ -244,6 +244,9 @@ func bip39All() {
 			default:
 				outcome("bip39:substitution_bad_checksum_rejected")
 			}
+			if want && wi%8 != 0 {
+				continue // NewSeedWithErrorChecking runs PBKDF2 on success: checked on every 8th accepted word only
+			}
 			_, err2 := bip39.NewSeedWithErrorChecking(m, "")
 			if (err2 == nil) != want && rec == nil {
 				report("bip39 NewSeedWithErrorChecking disagrees with the checksum", ord, key, m)
